@@ -57,10 +57,11 @@ func c19Enc(vk int) (bool, bool) {
 
 var c19Helpers = []string{"text", "html", "json", "jsonbytes", "jsonp", "xml", "blob", "stream", "nocontent", "redirect", "httperror", "streamerr", "xmlindent"}
 var c19Renderers = []string{"text", "plain", "textbytes", "html", "htmlbytes", "blob", "json", "jsonindented", "jsonp", "xml", "xmlpretty"}
-var c19Statuses = []int{200, 201, 202, 400, 404, 500, 0, 302, 307}
+var c19Statuses = []int{200, 201, 202, 400, 404, 500, 0, 302, 307, 299, 499, 520, 599}
 var c19Accepts = []string{"", "application/json", "text/xml, application/json", "text/plain, application/json", "application/xml", "text/xml", "text/html, text/plain",
 	"image/png", "image/png, text/plain;q=0.5", "*/*", "application/json;q=0.9, text/plain", " text/plain , application/xml", "text/html", ",,application/xml", "application/xml, text/html",
-	"text/csv;q=0.9, application/json", "*/*;q=0.1, text/xml", "image/png;q=1;level=2 , text/plain;q=0.5", "text/csv; q=0.9,text/html;q=0.8, application/json"}
+	"text/csv;q=0.9, application/json", "*/*;q=0.1, text/xml", "image/png;q=1;level=2 , text/plain;q=0.5", "text/csv; q=0.9,text/html;q=0.8, application/json",
+	"application/json ;q=0.9", "text/csv, application/xml\t; q=0.5, text/plain", "text/plain ; charset=utf-8"}
 
 func c19Gen(r *Rng, tier string, i int) Sx {
 	preset := A("none")
